@@ -18,6 +18,7 @@ LEVEL = 'model_checking'
 
 ALPHA = json.load(open(os.path.join(vplib.SPEC, 'glob_alphabet.json')))
 BYCODE = {v: k for k, v in ALPHA.items()}
+BYCODE[0xfffd] = 'bad' 
 BYCODE[-1] = 'eof'
 BYCODE[-2] = 'none'
 
@@ -27,7 +28,8 @@ FILTER_KIND = {'branches': 'ref', 'branches-ignore': 'ref', 'tags': 'ref', 'tags
 
 
 def concrete(syms):
-    return ''.join(chr(ALPHA[x]) for x in syms)
+    # "bad" stands for an invalid UTF-8 byte; in messages it is shown as U+FFFD
+    return ''.join('\ufffd' if ALPHA[x] == -100 else chr(ALPHA[x]) for x in syms)
 
 
 def conv(errs):
@@ -58,6 +60,13 @@ def run(ck, tier):
     vecs = vplib.read_dump_json(os.path.join(r.dir, 'vectors.dump'))
     if len(vecs) != r.distinct:
         raise Inconclusive('dump has %d vectors, TLC reported %d states' % (len(vecs), r.distinct))
+    # character classes need longer strings than the full alphabet allows: 7 symbols up to length 6
+    rc = vplib.run_tlc('Glob', 'Glob_class.cfg', dump='vectors', timeout=1200, name='class')
+    ck.add_tlc('Glob exhaustive MaxLen=6 over {[ ] - a TAB LF CR}: character classes and ranges with line breaks', rc)
+    if rc.violated:
+        raise Inconclusive('specification Glob.tla violates its own invariant %s (class alphabet)' % rc.violated)
+    seen_s = {tuple(v['s']) for v in vecs}
+    vecs += [v for v in vplib.read_dump_json(os.path.join(rc.dir, 'vectors.dump')) if tuple(v['s']) not in seen_s]
     # ---- G: API level, every vector
     vplib.write_jsonl(os.path.join(sd, 'in.jsonl'), [{'id': i, 's': concrete(v['s'])} for i, v in enumerate(vecs)])
     vplib.run_harness(['glob-vectors', os.path.join(sd, 'in.jsonl'), os.path.join(sd, 'out.jsonl')])
@@ -167,8 +176,20 @@ def lint_part(ck, sd, vecs, real_by_pat, limit):
         pat = concrete(v['s'])
         head = 'on:\n  push:\n    %s:\n' % key
         item = '%s  - ' % indent[:4]
-        src = head + item + yaml_quote(pat, style) + '\njobs:\n  j:\n    runs-on: ubuntu-latest\n    steps:\n      - run: echo\n'
-        cases.append({'v': v, 'key': key, 'style': style, 'src': src, 'line': 4, 'scol': len(item) + 1})
+        q = yaml_quote(pat, style)
+        tail = '\njobs:\n  j:\n    runs-on: ubuntu-latest\n    steps:\n      - run: echo\n'
+        if i % 5 == 3:
+            # the same pattern twice in one list and once more under a second event: every occurrence is validated
+            if key.startswith('tags'):       # tag filters exist for push only
+                src = head + item + q + '\n' + item + q + tail
+                lines_ = [4, 5]
+            else:
+                src = head + item + q + '\n' + item + q + '\n  pull_request:\n    %s:\n' % key + item + q + tail
+                lines_ = [4, 5, 8]
+        else:
+            src = head + item + q + tail
+            lines_ = [4]
+        cases.append({'v': v, 'key': key, 'style': style, 'src': src, 'lines': lines_, 'scol': len(item) + 1})
     vplib.write_jsonl(os.path.join(sd, 'lint_in.jsonl'), [{'id': i, 'src': c['src']} for i, c in enumerate(cases)])
     vplib.run_harness(['lint-batch', os.path.join(sd, 'lint_in.jsonl'), os.path.join(sd, 'lint_out.jsonl')])
     outs = vplib.read_jsonl(os.path.join(sd, 'lint_out.jsonl'))
@@ -182,7 +203,7 @@ def lint_part(ck, sd, vecs, real_by_pat, limit):
         if other:
             # the rendering itself must be clean apart from glob diagnostics
             raise Inconclusive('rendered workflow has unrelated diagnostics: %r in %r' % (other[:2], c['src']))
-        want = sorted((c['line'], c['scol'] + 1 + (e['col'] - 1 if e['col'] else 0)) for e in exp)
+        want = sorted((ln, c['scol'] + 1 + (e['col'] - 1 if e['col'] else 0)) for e in exp for ln in c['lines'])
         if got != want:
             ck.violation('lint:%s' % c['key'],
                          'filter %s: %r: diagnostics at %s, the validator\'s own errors mapped by the position rule give %s' % (c['key'], concrete(c['v']['s']), got, want),
